@@ -2,7 +2,7 @@
 From Coq Require Import Qround.
 From DA Require Import Prelude NDArray Array PyRT.
 From DA.Model Require Import Value Reshape SliceSpec Indexing Align.
-From DA.Proofs Require Import C10_proofs C01_proofs C03_proofs C07_proofs C06_proofs.
+From DA.Proofs Require Import C10_proofs C01_proofs C03_proofs C07_proofs C06_proofs C01_complete C06_direction.
 Open Scope nat_scope.
 
 (* Axis.union (all five branches: equal / empty / sorted merge / concatenate+isin): the result's
@@ -62,6 +62,25 @@ Theorem C06_identical_axes : forall axs a a',
     labels_match (alab (nth i (axes a') dax0)) (alab ax).
 Proof. exact align_one_labels. Qed.
 Print Assumptions C06_identical_axes.
+
+(* the direction clause: two different, non-empty, monotonic axes of consistent kinds that slope the same way are
+   merged into the sorted union - strictly increasing when they increase, strictly decreasing when they decrease *)
+Theorem C06_direction : forall a b,
+  snd (merge_kind (akind a) (akind b)) = true ->
+  labels_eqb (alab a) (alab b) = false -> alen a <> 0 -> alen b <> 0 ->
+  is_monotonic_labels (alab a) = true -> is_monotonic_labels (alab b) = true ->
+  slope_up (alab a) = slope_up (alab b) ->
+  let r := alab (axis_union a b) in
+  let down := label_le (last (alab a) LNone) (hd LNone (alab a)) in
+  (down = false -> r = union1d (alab a) (alab b) /\ strictly label_ltb r = true) /\
+  (down = true -> r = rev (union1d (alab a) (alab b)) /\ strictly (fun x y => label_ltb y x) r = true).
+Proof. exact axis_union_direction. Qed.
+Print Assumptions C06_direction.
+(* sort=True: the common axis comes out in ascending label order, as a rearrangement of its labels *)
+Theorem C06_sort_ascending : forall ax,
+  asc (alab (axis_sorted ax)) /\ Permutation.Permutation (argsort (alab ax)) (seq 0 (alen ax)).
+Proof. exact axis_sorted_ascending. Qed.
+Print Assumptions C06_sort_ascending.
 
 (* any number of inputs (the fold _common_axis): the common axis holds exactly the labels that some input has
    (outer join) / that every input has (inner join) *)
